@@ -120,7 +120,9 @@ class Stubs:
             if m is not None:
                 return m(ex, self.args_vals(ex, args) if name not in ('min', 'max', 'list', 'dict') else args, kwargs)
             if name in L.EXC_PARENT:
-                return L.OpaqueV(L.OK['instance'], ex.fresh_int('excinst'))
+                inst = L.OpaqueV(L.OK['instance'], ex.fresh_int('excinst'))
+                ex.exc_instances[inst.get_id()] = L.EXC_ID[name]
+                return inst
             ex.event('forbidden_call' if name in FORBIDDEN else 'unmodelled_call', name)
             return self.unknown_call(ex, 'builtin ' + name, [ex.to_val(a) for a in args if not isinstance(a, Pack)])
         m = getattr(self, 'x_' + name.replace('.', '_'), None)
@@ -146,6 +148,19 @@ class Stubs:
             return St('builtin', 'NoneType')
         ex.event('forbidden_call', 'type')
         return self.unknown_call(ex, 'builtin type', [ex.to_val(a) for a in args if not isinstance(a, Pack)])
+
+    def _all_any(self, ex, which, args):
+        v = ex.to_val(args[0])
+        n, arr = self.model.iter_snapshot(ex, v)
+        r = L.UF('py_' + which, I, z3.ArraySort(I, Val), B)(n, arr)
+        ex.assume(z3.Implies(n == 0, r == z3.BoolVal(which == 'all')))
+        return L.BoolV(r)
+
+    def b_all(self, ex, args, kwargs):
+        return self._all_any(ex, 'all', args)
+
+    def b_any(self, ex, args, kwargs):
+        return self._all_any(ex, 'any', args)
 
     def b_len(self, ex, args, kwargs):
         (v,) = args
@@ -257,7 +272,12 @@ class Stubs:
         if not args:
             return L.ListV(ex.new_list_from([]))
         if len(args) == 1 and isinstance(args[0], Pack):
-            raise Unsupported('list(*pack)')
+            n = self.model.seq_len(ex, args[0].val)
+            if ex.branch(n == 0, 'list-no-arg'):
+                return L.ListV(ex.new_list_from([]))
+            if not ex.branch(n == 1, 'list-one-arg'):
+                ex.raise_('TypeError', 'list expected at most 1 argument')
+            args = [self.model.seq_get(ex, args[0].val, z3.IntVal(0))]
         v = ex.to_val(args[0])
         n, arr = self.model.iter_snapshot(ex, v)
         r = ex.new_list(n, arr)
@@ -277,10 +297,15 @@ class Stubs:
     def b_dict(self, ex, args, kwargs):
         if kwargs:
             raise Unsupported('dict(**kw)')
+        if len(args) == 1 and isinstance(args[0], Pack):
+            n = self.model.seq_len(ex, args[0].val)
+            if ex.branch(n == 0, 'dict-no-arg'):
+                return L.DictV(ex.new_dict())
+            if not ex.branch(n == 1, 'dict-one-arg'):
+                ex.raise_('TypeError', 'dict expected at most 1 argument')
+            args = [self.model.seq_get(ex, args[0].val, z3.IntVal(0))]
         if not args:
             return L.DictV(ex.new_dict())
-        if isinstance(args[0], Pack):
-            raise Unsupported('dict(*pack)')
         v = ex.to_val(args[0])
         if ex.branch(L.is_Dict(v), 'dict-of-dict'):
             sr = L.simp(Val.dref(v))
